@@ -138,11 +138,11 @@ pub fn explore_set(spec: &Spec, dump: &Dump, si: usize, stats: &mut Stats, cap: 
         viols.push(Viol { kind: ViolKind::Entry, set: si, path: vec![], detail: format!("entry state {entry} out of range") });
         return viols;
     }
-    if si == 0 && entry != 0 {
-        viols.push(Viol { kind: ViolKind::Entry, set: si, path: vec![], detail: format!("Init entry state is {entry}, generated code starts in 0") });
-    }
-    if !dump.states[entry].initial {
-        viols.push(Viol { kind: ViolKind::Entry, set: si, path: vec![], detail: format!("entry state {entry} not flagged initial") });
+    // An entry state that is not protected from single-predecessor inlining has no code of its own
+    // to switch to. (Which state number `Init` gets is the implementation's business: "lexing
+    // starts in Init" is decided on real code by E.)
+    if !dump.states[entry].initial && dump.states[entry].preds.len() == 1 {
+        viols.push(Viol { kind: ViolKind::Entry, set: si, path: vec![], detail: format!("entry state {entry} is not flagged initial and has a single predecessor: it would be inlined away") });
     }
     let d0: Vec<D> = rules.iter().map(|r| from_re(&r.re, &env)).collect();
     let syms = symbols(&d0, &[&dump.states]);
@@ -224,7 +224,16 @@ pub fn explore_set(spec: &Spec, dump: &Dump, si: usize, stats: &mut Stats, cap: 
             };
             check_acc(&acc2, &dv2, &p2, &mut viols);
             if s == Sym::Eoi {
-                if !matches!(q2, Q::Term(_)) {
+                // nothing can follow the end of input: the target must be terminal (an accept edge,
+                // or a state without transitions)
+                let terminal = match &q2 {
+                    Q::Term(_) => true,
+                    Q::St(i) => {
+                        let t = &dump.states[*i];
+                        t.chars.is_empty() && t.ranges.is_empty() && t.any.is_none() && t.eoi.is_none()
+                    }
+                };
+                if !terminal {
                     viols.push(Viol { kind: ViolKind::EoiNonTerminal, set: si, path: p2, detail: "end-of-input edge leads to a state with transitions".into() });
                 }
                 continue;
